@@ -3,8 +3,10 @@
 // plane, connect/weld equalities and cross-tree tendons), runs mj_forward (which calls mj_island) and prints
 // the inputs mj_island saw (per-row trees recomputed here from the sparsity of efc_J, independent
 // of treeIterInit's special cases) together with every island array it produced.
-// stdin, one case per line:   G seed feat nbody jac steps   |   P seed nbody jac steps
-//   jac: 0 dense, 1 sparse.  steps: mj_step calls before the final mj_forward.
+// "chains": many single-dof trees adjacent in tree order, coupled only by rows whose trees come from the
+// generic Jacobian scan (joint / tendon equalities, tendon limits and friction), mostly dense Jacobian.
+// stdin, one case per line:   G seed feat nbody jac steps   |   P seed nbody jac steps   |   C seed nbody jac steps
+//   jac: 0 dense, 1 sparse, 2 auto.  steps: mj_step calls before the final mj_forward.
 // stdout, one line per case:  "X <reason>"  or integers:
 //   ntree nv nefc nisland nidof | tree_dofnum | dof_treeid | per row: class k t1..tk |
 //   efc_type | efc_id | then, if nisland > 0, the island arrays (see below)
@@ -92,6 +94,63 @@ static mjSpec* pile_spec(uint64_t seed, int nbody) {
   return s;
 }
 
+// single-dof trees in a row, coupled by joint equalities, fixed tendons (friction loss, violated limits)
+// and tendon equalities; no contacts.  Some multi-dof trees (two joints, free joint) are interleaved.
+static mjSpec* chain_spec(uint64_t seed, int nbody) {
+  mjg_rng R = { seed * 0xD1B54A32D192ED03ULL + 4242 }; mjg_rng* r = &R;
+  mjSpec* s = mj_makeSpec();
+  mjsBody* world = mjs_findBody(s, "world");
+  static char jn[1024][16]; int nj = 0, njnt = 0;
+  for (int b = 0; b < nbody; b++) {
+    mjsBody* body = mjs_addBody(world, NULL); mjg_name(body->element, "b", b);
+    body->pos[0] = 0.5 * b; body->pos[2] = 1;
+    int kind = mjg_int(r, 20);                    // 0..13 one scalar joint, 14..16 two scalar joints, 17..19 free
+    int n = kind < 14 ? 1 : kind < 17 ? 2 : 0;
+    if (n == 0) { mjsJoint* j = mjs_addJoint(body, NULL); mjg_name(j->element, "f", njnt++); j->type = mjJNT_FREE; }
+    for (int k = 0; k < n; k++) {
+      mjsJoint* j = mjs_addJoint(body, NULL); snprintf(jn[nj], 16, "j%d", nj); mjs_setName(j->element, jn[nj]); nj++; njnt++;
+      j->type = mjg_chance(r, 0.5) ? mjJNT_HINGE : mjJNT_SLIDE;
+      j->axis[0] = k == 0; j->axis[1] = k == 1; j->axis[2] = 0.5;
+    }
+    mjsGeom* g = mjs_addGeom(body, NULL); g->type = mjGEOM_SPHERE; g->size[0] = 0.05; g->contype = 0; g->conaffinity = 0;
+  }
+  if (nj == 0) return s;
+  int ne = 1 + mjg_int(r, 1 + nbody / 2);
+  for (int k = 0; k < ne; k++) {
+    mjsEquality* e = mjs_addEquality(s, NULL); mjg_name(e->element, "e", k);
+    e->type = mjEQ_JOINT; e->objtype = mjOBJ_JOINT;
+    int a = mjg_int(r, nj);
+    mjs_setString(e->name1, jn[a]);
+    if (nj > 1 && mjg_chance(r, 0.85)) {
+      int b2 = mjg_chance(r, 0.65) ? (mjg_chance(r, 0.5) ? a + 1 : a - 1) : mjg_int(r, nj);
+      if (b2 < 0) b2 = a + 1; if (b2 >= nj) b2 = a - 1; if (b2 == a) b2 = (a + 1) % nj;
+      mjs_setString(e->name2, jn[b2]);
+    }
+    e->data[0] = 0; e->data[1] = (mjg_chance(r, 0.5) ? 1 : -1) * mjg_range(r, 0.5, 1.5);
+    e->active = mjg_chance(r, 0.9);
+  }
+  int nt = nj >= 2 ? mjg_int(r, 2 + nbody / 3) : 0;
+  for (int k = 0; k < nt; k++) {
+    mjsTendon* t = mjs_addTendon(s, NULL); mjg_name(t->element, "t", k);
+    int nw = 2 + mjg_int(r, 2); if (nw > nj) nw = nj;
+    int first = mjg_int(r, nj), stride = mjg_chance(r, 0.7) ? 1 : 1 + mjg_int(r, 3);
+    while (stride > 1 && nj % stride == 0) stride--;
+    for (int w = 0; w < nw; w++) mjs_wrapJoint(t, jn[(first + w * stride) % nj], (mjg_chance(r, 0.5) ? 1 : -1) * (0.5 + mjg_u(r)));
+    int mode = mjg_int(r, 3);
+    if (mode == 0 || mode == 2) t->frictionloss = 0.1;
+    if (mode == 1 || mode == 2) { t->limited = mjLIMITED_TRUE; t->range[0] = 0.1; t->range[1] = 0.5; }   // length 0 violates it
+  }
+  if (nt >= 2 && mjg_chance(r, 0.5)) {
+    mjsEquality* e = mjs_addEquality(s, NULL); mjs_setName(e->element, "te");
+    e->type = mjEQ_TENDON; e->objtype = mjOBJ_TENDON;
+    int a = mjg_int(r, nt), b2 = (a + 1 + mjg_int(r, nt - 1)) % nt; char n1[16], n2[16];
+    snprintf(n1, 16, "t%d", a); snprintf(n2, 16, "t%d", b2);
+    mjs_setString(e->name1, n1); if (mjg_chance(r, 0.7)) mjs_setString(e->name2, n2);
+    e->data[0] = 0; e->data[1] = 1;
+  }
+  return s;
+}
+
 int main(void) {
   mjg_install_handlers();
   signal(SIGSEGV, on_segv); signal(SIGBUS, on_segv); signal(SIGABRT, on_segv);
@@ -101,8 +160,9 @@ int main(void) {
     mjSpec* s = NULL;
     if (op[0] == 'G') { if (scanf("%llu %u %d %d %d", &seed, &feat, &nbody, &jac, &steps) != 5) return 2; s = mjg_spec(seed, feat, nbody); }
     else if (op[0] == 'P') { if (scanf("%llu %d %d %d", &seed, &nbody, &jac, &steps) != 4) return 2; s = pile_spec(seed, nbody); }
+    else if (op[0] == 'C') { if (scanf("%llu %d %d %d", &seed, &nbody, &jac, &steps) != 4) return 2; s = chain_spec(seed, nbody); }
     else return 2;
-    s->option.jacobian = jac ? mjJAC_SPARSE : mjJAC_DENSE;
+    s->option.jacobian = jac == 1 ? mjJAC_SPARSE : jac == 2 ? mjJAC_AUTO : mjJAC_DENSE;
     phase = "compile";
     mjModel* m = mj_compile(s, NULL);
     phase = "run";
